@@ -43,18 +43,18 @@ RULE = {
 }
 
 REQUIRED = {
-    "C01": {"clock-moves-between-engage-and-execute": 1000, "verbose-logging-on": 500, "disengage-stop": 50, "must_finish-continue": 50, "default-fallback": 50, "now-chain": 50,
+    "C01": {"object-used-for-100000-iterations": 1, "clock-moves-between-engage-and-execute": 1000, "verbose-logging-on": 500, "disengage-stop": 50, "must_finish-continue": 50, "default-fallback": 50, "now-chain": 50,
             "op-engage-force": 20, "op-engage-initial": 20, "expiry-hop": 50, "in-state-done": 20,
             "iteration-with-100-or-more-nested-transitions": 3},
-    "C02": {"clock-moves-between-engage-and-execute": 1000, "verbose-logging-on": 500, "expiry-hop": 100, "expiry-finish-stop": 20, "cycle-restart": 100, "exact-landing-strict": 50,
+    "C02": {"object-used-for-100000-iterations": 1, "clock-moves-between-engage-and-execute": 1000, "verbose-logging-on": 500, "expiry-hop": 100, "expiry-finish-stop": 20, "cycle-restart": 100, "exact-landing-strict": 50,
             "tie-forked": 20, "long-pause-expiry": 20, "op-nt-write": 20, "three-consecutive-cycles": 10,
             "preexisting-duration": 10},
-    "C03": {"clock-moves-between-engage-and-execute": 1000, "verbose-logging-on": 500, "entry-by-engage": 50, "entry-by-next": 50, "entry-by-expiry": 50, "entry-by-restart": 20,
+    "C03": {"object-used-for-100000-iterations": 1, "clock-moves-between-engage-and-execute": 1000, "verbose-logging-on": 500, "entry-by-engage": 50, "entry-by-next": 50, "entry-by-expiry": 50, "entry-by-restart": 20,
             "default-fallback": 50, "default-run": 50, "ic-false-after-true": 100, "signature-subsets-seen": 16},
-    "C04": {"clock-moves-between-engage-and-execute": 1000, "verbose-logging-on": 500, "disengage-stop": 50, "expiry-finish-stop": 20, "cycle-restart": 20, "op-done": 20, "op-on_disable": 10,
+    "C04": {"object-used-for-100000-iterations": 1, "clock-moves-between-engage-and-execute": 1000, "verbose-logging-on": 500, "disengage-stop": 50, "expiry-finish-stop": 20, "cycle-restart": 20, "op-done": 20, "op-on_disable": 10,
             "in-state-done": 20, "machine-start": 100, "done-required-checked": 50, "nt-current_state-checked": 1000},
     "C13": {"driver-station-auto": 500, "verbose-logging-on": 500, "auto-last-timed-state-stay-checked": 2000, "auto-ended-by-done": 20, "auto-ended-by-expiry": 20, "auto-disabled-midrun": 10, "auto-second-period": 20,
-            "auto-post-end-iteration": 50, "auto-twin-compared-iteration": 500},
+            "auto-post-end-iteration": 50, "auto-twin-compared-iteration": 500, "auto-object-used-for-160-periods": 1},
 }
 
 ASSUMPTIONS = {p: ["reference model of DESIGN.md 3.2 (sm_model.py) is a faithful reading of the statement; its don't-cares are listed there",
@@ -75,8 +75,9 @@ def shards(pid, tier, seed):
     if tier == "quick":
         n = QUICK_CASES[pid]
         k = 16
-        return [{"n": n // k} for _ in range(k)]
-    return [{"n": THOROUGH_PER_SHARD} for _ in range(THOROUGH_SHARDS)]
+        return [{"n": n // k} for _ in range(k)] + [{"n": 2 if pid == "C13" else 1, "ultra": True}]
+    extra = [{"n": 3 if pid == "C13" else 2, "ultra": True} for _ in range(4)]      # objects that each live through 160 autonomous periods / 100 000 iterations
+    return [{"n": THOROUGH_PER_SHARD} for _ in range(THOROUGH_SHARDS)] + extra
 
 
 # ----------------------------------------------------------------------------- generator
@@ -914,6 +915,9 @@ class Driver:
         if case.get("marathon"):
             total = 3000            # thousands of iterations of one continuously engaged run
             self.ev("marathon-run")
+        if case.get("ultra"):
+            total = 100000          # one object lives through 100 000 control loops (33 minutes at 50 Hz) of mixed use
+            self.ev("object-used-for-100000-iterations")
         late = rng.random() < 0.3
         if late:
             self.ev("clock-moves-between-engage-and-execute")
@@ -1369,10 +1373,13 @@ class AutoDriver:
             return self.apply(op)
 
         tm_arg = 0.0
-        for per in range(rng.choice([1, 2, 2, 3, 4]) if rng.random() > 0.03 else rng.choice([9, 14])):
+        ultra = bool(case.get("ultra"))
+        if ultra:
+            self.ev("auto-object-used-for-160-periods")
+        for per in range(160 if ultra else rng.choice([1, 2, 2, 3, 4]) if rng.random() > 0.03 else rng.choice([9, 14])):
             if not do(["on_enable"]):
                 return ops
-            n_it = rng.choice([5, 15, 40, 100, 200])
+            n_it = 1000 if ultra else rng.choice([5, 15, 40, 100, 200])          # (ultra: one object lives through 160 000 control loops)
             clock = rng.choice(["fixed", "fixed", "random", "land"])
             t_period = 0.0
             for j in range(n_it):
@@ -1399,7 +1406,7 @@ class AutoDriver:
                     v = rng.choice([0, 1000000]) if s.get("dur_int") else (GRID * rng.choice([0, 1, 3, -1]) if grid else rng.choice([0, period, 3 * period, -period, -1]))
                     if not do(["nt", nm, v]):
                         return ops
-                r = rng.random()
+                r = rng.random() * (40 if ultra else 1)
                 if r < 0.01:
                     if not do(["on_disable"]):
                         return ops
@@ -1464,6 +1471,13 @@ def run_shard(spec):
     for i in range(spec["n"]):
         uid = f"v{spec['seed']:x}x{i}"
         case = gen_case(rng, pid, uid)
+        if spec.get("ultra"):
+            # one object used for 160 autonomous periods of 1000 control loops; its states do not call done() themselves, so
+            # most of those loops find the machine running
+            case["ultra"] = True
+            for nm_, acts_ in case["script"].items():
+                if isinstance(acts_, list):
+                    case["script"][nm_] = [None if (a_ and a_[0] in ("done", "done_now")) else a_ for a_ in acts_]
         if i % 400 == 399:
             # the clock jumps ahead by hours (2^31 us, 2^32 us, ~2.8 h): later cases of the shard run at a large FPGA time
             hs.stepTimingAsync([2 ** 31, 2 ** 32, 10 ** 10][(i // 400) % 3])
